@@ -614,9 +614,11 @@ static void register_properties()
   pbt::property<ThreadCase>("threads", 300,
       gen::build<ThreadCase>(gen::set(&ThreadCase::nobjects, pbt::range<int>(0, 2)), gen::set(&ThreadCase::programs, progs), gen::set(&ThreadCase::creatorDropAfter, pbt::range<int>(0, 49)), gen::set(&ThreadCase::reps, pbt::range<int>(0, 39))),
       thread_case);
+  pbt::registry().back()->noShrink = true;  // a shrunk thread program has less contention: keep the case as it failed
   pbt::property<SharedSrc>("shared_source_rounds", 150,
       gen::build<SharedSrc>(gen::set(&SharedSrc::threads, pbt::range<int>(0, 6)), gen::set(&SharedSrc::rounds, pbt::range<int>(20, 399)), gen::set(&SharedSrc::mode, pbt::range<int>(0, 2))),
       shared_source_case);
+  pbt::registry().back()->noShrink = true;
 }
 #ifndef C08_BIN
 #define C08_BIN "C08_refcount"
